@@ -15,12 +15,20 @@ class UnownedRandomness(RuntimeError):
     pass
 
 
+BULK = 64  # draws larger than this are answered by constant arrays (one choice over the support)
+
+
 class _RvProxy:
     def __init__(self, chooser, xk, pk, label):
         self.ch, self.xk, self.pk, self.label = chooser, np.asarray(xk), np.asarray(pk, dtype=float), label
 
     def rvs(self, size=1, **kw):
         size = int(size)
+        if size > BULK:
+            # bulk draw (chunked-sampling paths): enumerating sample sequences is impossible; the answer is a constant array
+            # whose value is a single choice point over the support, recorded like any other draw
+            i = self.ch.choose(len(self.xk), self.label + "[bulk]", {"xk": self.xk.tolist(), "pk": self.pk.tolist(), "size": size, "bulk": True})
+            return np.full(size, self.xk[i])
         seqs = sequences(len(self.xk), size)
         i = self.ch.choose(len(seqs), self.label, {"xk": self.xk.tolist(), "pk": self.pk.tolist(), "size": size})
         return np.array([self.xk[j] for j in seqs[i]])
